@@ -149,33 +149,34 @@ structure SameStored (b b' : Blk) : Prop where
   aecs : b'.aecs = b.aecs
   mms : b'.mms = b.mms
   mmd : b'.mmd = b.mmd
+  stats : b'.stats = b.stats
 
 /-- "the adder keeps records and malformed-message data, and every signature / RR of the result honours the hints" -/
 def Keeps (h : Hints) (b b' : Blk) : Prop :=
   SameStored b b' ∧ ((∀ s ∈ b.sig, SigHonours h s) → ∀ s ∈ b'.sig, SigHonours h s) ∧ ((∀ r ∈ b.rr, RrHonours h r) → ∀ r ∈ b'.rr, RrHonours h r)
 
-theorem Keeps.refl (h : Hints) (b : Blk) : Keeps h b b := ⟨⟨rfl, rfl, rfl, rfl⟩, id, id⟩
+theorem Keeps.refl (h : Hints) (b : Blk) : Keeps h b b := ⟨⟨rfl, rfl, rfl, rfl, rfl⟩, id, id⟩
 
 theorem Keeps.trans {h : Hints} {a b c : Blk} (h1 : Keeps h a b) (h2 : Keeps h b c) : Keeps h a c :=
-  ⟨⟨h2.1.qrs.trans h1.1.qrs, h2.1.aecs.trans h1.1.aecs, h2.1.mms.trans h1.1.mms, h2.1.mmd.trans h1.1.mmd⟩,
+  ⟨⟨h2.1.qrs.trans h1.1.qrs, h2.1.aecs.trans h1.1.aecs, h2.1.mms.trans h1.1.mms, h2.1.mmd.trans h1.1.mmd, h2.1.stats.trans h1.1.stats⟩,
    fun x => h2.2.1 (h1.2.1 x), fun x => h2.2.2 (h1.2.2 x)⟩
 
-theorem keeps_addIp (h : Hints) (b : Blk) (x : Bytes) : Keeps h b (addIp b x).1 := ⟨⟨rfl, rfl, rfl, rfl⟩, id, id⟩
-theorem keeps_addCt (h : Hints) (b : Blk) (x : Nat × Nat) : Keeps h b (addCt b x).1 := ⟨⟨rfl, rfl, rfl, rfl⟩, id, id⟩
-theorem keeps_addNr (h : Hints) (b : Blk) (x : Bytes) : Keeps h b (addNr b x).1 := ⟨⟨rfl, rfl, rfl, rfl⟩, id, id⟩
-theorem keeps_addQl (h : Hints) (b : Blk) (x : List Nat) : Keeps h b (addQl b x).1 := ⟨⟨rfl, rfl, rfl, rfl⟩, id, id⟩
-theorem keeps_addQrr (h : Hints) (b : Blk) (x : Nat × Nat) : Keeps h b (addQrr b x).1 := ⟨⟨rfl, rfl, rfl, rfl⟩, id, id⟩
-theorem keeps_addRl (h : Hints) (b : Blk) (x : List Nat) : Keeps h b (addRl b x).1 := ⟨⟨rfl, rfl, rfl, rfl⟩, id, id⟩
+theorem keeps_addIp (h : Hints) (b : Blk) (x : Bytes) : Keeps h b (addIp b x).1 := ⟨⟨rfl, rfl, rfl, rfl, rfl⟩, id, id⟩
+theorem keeps_addCt (h : Hints) (b : Blk) (x : Nat × Nat) : Keeps h b (addCt b x).1 := ⟨⟨rfl, rfl, rfl, rfl, rfl⟩, id, id⟩
+theorem keeps_addNr (h : Hints) (b : Blk) (x : Bytes) : Keeps h b (addNr b x).1 := ⟨⟨rfl, rfl, rfl, rfl, rfl⟩, id, id⟩
+theorem keeps_addQl (h : Hints) (b : Blk) (x : List Nat) : Keeps h b (addQl b x).1 := ⟨⟨rfl, rfl, rfl, rfl, rfl⟩, id, id⟩
+theorem keeps_addQrr (h : Hints) (b : Blk) (x : Nat × Nat) : Keeps h b (addQrr b x).1 := ⟨⟨rfl, rfl, rfl, rfl, rfl⟩, id, id⟩
+theorem keeps_addRl (h : Hints) (b : Blk) (x : List Nat) : Keeps h b (addRl b x).1 := ⟨⟨rfl, rfl, rfl, rfl, rfl⟩, id, id⟩
 
 theorem keeps_addSig (h : Hints) (b : Blk) (s : Sig) (hs : SigHonours h s) : Keeps h b (addSig b s).1 := by
-  refine ⟨⟨rfl, rfl, rfl, rfl⟩, ?_, id⟩
+  refine ⟨⟨rfl, rfl, rfl, rfl, rfl⟩, ?_, id⟩
   intro hall s' hs'
   rcases mem_addDedup b.sig s s' hs' with h1 | rfl
   · exact hall s' h1
   · exact hs
 
 theorem keeps_addRr (h : Hints) (b : Blk) (r : RRe) (hr : RrHonours h r) : Keeps h b (addRr b r).1 := by
-  refine ⟨⟨rfl, rfl, rfl, rfl⟩, id, ?_⟩
+  refine ⟨⟨rfl, rfl, rfl, rfl, rfl⟩, id, ?_⟩
   intro hall r' hr'
   rcases mem_addDedup b.rr r r' hr' with h1 | rfl
   · exact hall r' h1
